@@ -51,7 +51,15 @@ def handle (s : DState) (line0 : String) : DState :=
           -- `SatGReverse.reopen_exact`, `SatGWitness`) predict that the two deployments part on this very step?
           let okOf (st : Perp.Spec.Step) : Bool := match Perp.World.applyTx st.pre st.env st.sender st.funds st.tx with | .ok _ => true | .error _ => false
           let mv := if okOf sa == okOf sb then "{model-agrees}" else "{model-diverges}"
-          let a := tags.foldl (fun a t => a.report "SPECFAIL" "C13" s!"{kindB}{flow}:{t}[native:{errB}]{mv}" txline) a
+          -- the native deployment's outcome is named by the REFERENCE MODEL's verdict on that very step (the implementation's error text is
+          -- not part of a finding's signature: a reworded message is not a new defect); a native rejection the model does not share is
+          -- tagged as such and matches no listed finding
+          let nativeTag : String :=
+            match Perp.World.applyTx sb.pre sb.env sb.sender sb.funds sb.tx with
+            | .ok _ => if sb.ok then "accepted" else "rejected-unlike-the-model"
+            | .error e => if sb.ok then "accepted-unlike-the-model" else s!"rejected-as-the-model:{errTagOf e}"
+          let _ := errB
+          let a := tags.foldl (fun a t => a.report "SPECFAIL" "C13" s!"{kindB}{flow}:{t}[native:{nativeTag}]{mv}" txline) a
           { s with acc := a, whB := h, twinA := none, twinDiverged := !tags.isEmpty }
       | _, _ => { s with acc := a, whB := h }
     else
